@@ -202,10 +202,12 @@ nd::harnesses! {
         assert!(made() == 0 && drops() == 0);
     }
 
-    /// "Cloning and dropping always run the functions of the module that created the allocation":
-    /// a handle fabricated through the C view with foreign clone/drop functions over NON-HEAP
-    /// memory is only ever cloned/released through those functions, with the instance pointer.
-    #[kani::unwind(4)]
+    /// "Cloning and dropping always run the functions of the module that created the allocation": a handle
+    /// fabricated through the C view, with foreign clone/drop functions over NON-HEAP memory that hand out a
+    /// DISTINCT handle per reference (as the ABI permits): every clone goes through the creator's clone
+    /// function and keeps the handle it returned, every handle is released exactly once through the creator's
+    /// drop function.
+    #[kani::unwind(8)]
     fn c10_foreign_functions_used() {
         #[repr(C)]
         struct CArcView {
@@ -213,52 +215,69 @@ nd::harnesses! {
             clone_fn: Option<unsafe extern "C" fn(*const u32) -> *const u32>,
             drop_fn: Option<unsafe extern "C" fn(*const u32)>,
         }
+        const SLOTS: usize = 6;
+        static mut CELLS: [u32; SLOTS] = [0; SLOTS];
+        static mut HANDED: usize = 0;
+        static mut RELEASED: [u8; SLOTS] = [0; SLOTS];
         static mut CLONES: u32 = 0;
-        static mut RELEASES: u32 = 0;
-        static mut BAD_ARG: bool = false;
-        static mut EXPECT: *const u32 = core::ptr::null();
-        unsafe extern "C" fn f_clone(p: *const u32) -> *const u32 {
-            CLONES += 1;
-            if p != EXPECT {
-                BAD_ARG = true;
+        static mut BAD: bool = false;
+        unsafe fn slot_of(p: *const u32) -> usize {
+            let base = CELLS.as_ptr() as usize;
+            let a = p as usize;
+            if a < base || a >= base + SLOTS * 4 || (a - base) % 4 != 0 {
+                BAD = true;
+                return 0;
             }
-            p
+            (a - base) / 4
+        }
+        unsafe extern "C" fn f_clone(p: *const u32) -> *const u32 {
+            let s = slot_of(p);
+            if s >= HANDED || RELEASED[s] != 0 {
+                BAD = true;
+            }
+            CLONES += 1;
+            if HANDED >= SLOTS {
+                BAD = true;
+                return p;
+            }
+            let n = HANDED;
+            HANDED += 1;
+            CELLS.as_ptr().add(n)
         }
         unsafe extern "C" fn f_drop(p: *const u32) {
-            RELEASES += 1;
-            if p != EXPECT {
-                BAD_ARG = true;
+            let s = slot_of(p);
+            if s >= HANDED {
+                BAD = true;
             }
+            RELEASED[s] += 1;
         }
+        let val: u32 = nd::any();
         unsafe {
+            CELLS = [val; SLOTS];
+            HANDED = 1;
+            RELEASED = [0; SLOTS];
             CLONES = 0;
-            RELEASES = 0;
-            BAD_ARG = false;
+            BAD = false;
         }
-        let cell: u32 = nd::any(); // stack memory: freeing it through the host allocator is an error
-        unsafe { EXPECT = &cell };
         assert!(core::mem::size_of::<CArcView>() == core::mem::size_of::<CArc<u32>>());
-        let view = CArcView { instance: &cell, clone_fn: Some(f_clone), drop_fn: Some(f_drop) };
+        let view = CArcView { instance: unsafe { CELLS.as_ptr() }, clone_fn: Some(f_clone), drop_fn: Some(f_drop) };
         let a: CArc<u32> = unsafe { core::mem::transmute(view) };
-        let n: u8 = nd::any();
-        nd::assume(n <= 2);
         let path: u8 = nd::any();
         nd::assume(path < 3);
-        let mut handles = 1u32;
+        let n = nd::range(0, 2);
         let mut clones = 0u32;
         let b = a.clone();
-        handles += 1;
         clones += 1;
-        assert!(b.as_ref().map(|r| *r) == Some(cell));
+        assert!(b.as_ref().map(|r| *r) == Some(val));
+        assert!(b.as_ref().map(|r| r as *const u32 as usize) == Some(unsafe { CELLS.as_ptr().add(1) } as usize), "the clone keeps the handle its creator returned");
         let c = match path {
             0 => b,
             1 => {
                 let some = b.transpose().unwrap();
                 let s2 = some.clone();
                 clones += 1;
-                assert!(*s2 == cell);
+                assert!(*s2 == val);
                 drop(some);
-                unsafe { assert!(RELEASES == 1) };
                 s2.transpose()
             }
             _ => {
@@ -266,27 +285,27 @@ nd::harnesses! {
                 let o2 = o.clone();
                 clones += 1;
                 drop(o);
-                unsafe { assert!(RELEASES == 1) };
-                // back to the typed view: same bits
                 unsafe { core::mem::transmute::<CArc<c_void>, CArc<u32>>(o2) }
             }
         };
-        let released_early = if path == 0 { 0 } else { 1 };
         let mut i = 0;
-        let mut extra = 0;
         while i < n {
             let t = c.clone();
             clones += 1;
             drop(t);
-            extra += 1;
             i += 1;
         }
         drop(a);
         drop(c);
         unsafe {
-            assert!(!BAD_ARG, "foreign functions called with the instance pointer");
+            assert!(!BAD, "foreign functions were called with handles the creator handed out, none after its release");
             assert!(CLONES == clones, "every clone went through the creator's clone function");
-            assert!(RELEASES == handles + released_early + extra, "every handle released once through the creator's drop function");
+            assert!(HANDED as u32 == 1 + clones);
+            let mut k = 0;
+            while k < SLOTS {
+                assert!(RELEASED[k] == if k < HANDED { 1 } else { 0 }, "every handle released exactly once through the creator's drop function");
+                k += 1;
+            }
         }
     }
 
